@@ -32,6 +32,7 @@ func (c08) Cases(tier string, seed int64, kf *KnownFindings) []Case {
 	add := func(c Case) { c.Sub = -1; cs = append(cs, c) }
 	add(Case{Kind: "table"})
 	add(Case{Kind: "bulk", Seed: Mix(seed, 4243)})
+	add(Case{Kind: "mapkeys"})
 	add(Case{Kind: "f32edge", Seed: Mix(seed, 4246), Count: 400})
 	if tier == "quick" {
 		add(Case{Kind: "ints", A: -70000, B: -35000})
@@ -292,6 +293,39 @@ func (c08) Run(c Case, env *Env) Result {
 		}
 		res.NTCount = int64(n)
 		res.Sample(map[string]interface{}{"kind": "float64 values with 23-bit mantissas around the float32 subnormal / overflow boundaries", "values": n, "example": "1.5 x 2^-149 (looks like a float32, is not one)"})
+	case "mapkeys":
+		// float64 map keys, NaN included: a NaN key can only be reached by iteration
+		for j, f := range []float64{math.NaN(), math.Inf(1), math.Inf(-1), 1.5, -2, 0.1, 1e300, math.SmallestNonzeroFloat64} {
+			res.Evals++
+			res.NT = append(res.NT, Hash64(fmt.Sprintf("mapkey|%x", math.Float64bits(f))))
+			cc := c
+			cc.Sub = j
+			o := roundTrip(&zoo.MpF64Str{M: map[float64]string{f: "v", 7: "seven"}})
+			feats := append(doubleFeatures(f), "pos=f64mapkey")
+			viol := func(class, detail string) {
+				env.Viol(&res, Violation{Class: class, Features: feats, Detail: fmt.Sprintf("float64 map key %v: %s", f, detail), Case: cc})
+			}
+			switch {
+			case o.Panic != nil:
+				viol(o.Panic.Class, o.Stage+" panic "+o.Panic.Msg)
+			case o.EncErr != nil:
+				viol("enc-error", o.EncErr.Error())
+			case o.DecErr != nil:
+				viol("dec-error", fmt.Sprintf("(%s) %v", hexClip(o.Wire), o.DecErr))
+			default:
+				s, ok := o.Dec.(*zoo.MpF64Str)
+				found := false
+				if ok && len(s.M) == 2 {
+					for k, v := range s.M {
+						found = found || (sameFloat(k, f) && v == "v")
+					}
+				}
+				if !found {
+					viol("mismatch:value", fmt.Sprintf("(%s) decoded as %v", hexClip(o.Wire), o.Dec))
+				}
+			}
+		}
+		res.Sample(map[string]interface{}{"kind": "float64 map keys", "keys": "NaN, +-Inf, 1.5, -2, 0.1, 1e300, 4.9e-324"})
 	case "fields":
 		c08fields(c, env, &res)
 	case "bulk":
@@ -318,7 +352,7 @@ func c08fields(c Case, env *Env, res *Result) {
 		case 3:
 			f = float64(math.Float32frombits(r.Uint32()))
 		}
-		pos := []string{"f64field", "f32field", "f64elem", "f32elem", "mapval"}[r.Intn(5)]
+		pos := []string{"f64field", "f32field", "f64elem", "f32elem", "mapval", "f64mapkey", "namedf64field"}[r.Intn(7)]
 		if c.Sub >= 0 && j != c.Sub {
 			continue
 		}
@@ -374,6 +408,28 @@ func c08fields(c Case, env *Env, res *Result) {
 					return 0, false
 				}
 				return float64(s.V[1]), true
+			}
+		case "f64mapkey":
+			// a float64 map key, NaN included (a NaN key cannot be looked up again, only iterated)
+			val = &zoo.MpF64Str{M: map[float64]string{f: "v"}}
+			get = func(d interface{}) (float64, bool) {
+				s, ok := d.(*zoo.MpF64Str)
+				if !ok || len(s.M) != 1 {
+					return 0, false
+				}
+				for k, v := range s.M {
+					return k, v == "v"
+				}
+				return 0, false
+			}
+		case "namedf64field":
+			val = &zoo.NamedScalars{C: zoo.Celsius(f), L: "x"}
+			get = func(d interface{}) (float64, bool) {
+				s, ok := d.(*zoo.NamedScalars)
+				if !ok {
+					return 0, false
+				}
+				return float64(s.C), true
 			}
 		case "mapval":
 			val = map[interface{}]interface{}{"k": f}
